@@ -113,6 +113,46 @@ theorem render_injective (a b : List (Int × DayTimes)) (ha : ∀ e ∈ a, Entry
   rw [h, decode_render b hb] at h1
   exact (Option.some.inj h1).symm
 
+
+/-- **the canonical form carries the same value**: `renderRangeCanon` (compact, keys in byte order -
+    what re-serialising the decoded value gives) decodes, under its own strict decoder, to exactly
+    the result it was rendered from.  This is what makes the check's rule for documents whose bytes
+    differ sound: equal canonical forms ⇒ equal results (`canon_injective`). -/
+theorem decodeCanon_render (days : List (Int × DayTimes)) (h : ∀ e ∈ days, EntryWf e) :
+    decodeRangeCanon (renderRangeCanon days) = some days := by
+  unfold decodeRangeCanon
+  rw [renderRangeCanon_toList]
+  cases days with
+  | nil => rfl
+  | cons e rest =>
+    have hne : e :: rest ≠ [] := by simp
+    have hfirst : ∃ q, [','].intercalate ((e :: rest).map entryCanonL) ++ ['}'] = '"' :: q := by
+      cases rest with
+      | nil => exact ⟨_, rfl⟩
+      | cons e2 r2 => exact ⟨_, rfl⟩
+    obtain ⟨q, hq⟩ := hfirst
+    have hdec := decodeEntriesCanon_render (e :: rest) hne h ['}'] (by intro q; simp)
+      ([','].intercalate ((e :: rest).map entryCanonL) ++ ['}']).length
+      (by have := entriesCanon_length (e :: rest); simp only [List.length_append] at *; omega)
+    unfold decodeRangeCanonL
+    rw [hq] at hdec ⊢
+    have hs : stripPrefix? ['{'] ('{' :: '"' :: q) = some ('"' :: q) := strip_append ['{'] _
+    rw [hs]
+    dsimp only
+    rw [if_neg (by simp), hdec]
+    simp
+
+theorem canon_injective (a b : List (Int × DayTimes)) (ha : ∀ e ∈ a, EntryWf e) (hb : ∀ e ∈ b, EntryWf e)
+    (h : renderRangeCanon a = renderRangeCanon b) : a = b := by
+  have h1 := decodeCanon_render a ha
+  rw [h, decodeCanon_render b hb] at h1
+  exact (Option.some.inj h1).symm
+
+/-- the two renderings of one result describe the same value: each decodes to it -/
+theorem canon_same_value (days : List (Int × DayTimes)) (h : ∀ e ∈ days, EntryWf e) :
+    decodeRange (renderRange days) = decodeRangeCanon (renderRangeCanon days) := by
+  rw [decode_render days h, decodeCanon_render days h]
+
 /-- every clock time the model produces is a valid time of day (`hmsOpt` is chrono's
     `NaiveTime::from_hms_opt(..).unwrap()`: anything else is a panic, not a result) -/
 theorem hourToTime_wf (p : Params α) (pr : Prayer) (x : α) (t : HMS) (h : hourToTime p pr x = .ok t) :
